@@ -329,6 +329,150 @@ theorem shape_noninterference (refs : List (Str × Str)) (tag : Str) (c c' : Cel
   intro i h1 h2
   simp
 
+/-! ## 4b. the flattened-string form: the recovered string equals the cell up to the boundary spaces -/
+
+theorem flatKids_append (L1 L2 : List Node) : flatKids (L1 ++ L2) = flatKids L1 ++ flatKids L2 := by
+  induction L1 with
+  | nil => simp [flatKids]
+  | cons n r ih => cases n <;> simp [flatKids, ih]
+
+theorem flatKids_textIf (s : Str) : flatKids (textIfNonempty s) = s := by
+  cases s <;> simp [textIfNonempty, flatKids]
+
+theorem flatKids_chunk (b : Bool) (s : Str) : flatKids (chunk b s) = s := by
+  cases s <;> simp [chunk, flatKids]
+
+theorem flatKids_prepend (a : Str) (L : List Node) : flatKids (prepend a L) = a ++ flatKids L := by
+  cases a with
+  | nil => rfl
+  | cons c a =>
+    cases L with
+    | nil => simp [prepend, flatKids]
+    | cons n r => cases n <;> simp [prepend, flatKids]
+
+theorem flatKids_mergeText (L : List Node) : flatKids (mergeText L) = flatKids L := by
+  induction L with
+  | nil => simp [mergeText]
+  | cons n r ih =>
+    cases n with
+    | text b s => simp [mergeText_text, flatKids_prepend, ih, flatKids]
+    | elem t a ks => simp [mergeText_elem, flatKids, ih]
+
+theorem flatKids_normKids (L : List Node) : flatKids (normKids L) = flatKids L := by
+  induction L with
+  | nil => simp [normKids]
+  | cons n r ih => cases n <;> simp [normKids, normNode_text, normNode_elem, flatKids, ih]
+
+theorem normEol_noCR : ∀ (n : Nat) (s : Str), s.length ≤ n → (normEol s).all (fun c => c != '\r') = true
+  | _, [], _ => by simp [normEol]
+  | 0, _ :: _, hl => by simp at hl
+  | n + 1, c :: r, hl => by
+    by_cases h : c = '\r' ∧ ∃ r', r = '\n' :: r'
+    · obtain ⟨rfl, r', rfl⟩ := h
+      rw [normEol_cr_lf]
+      simp only [List.all_cons, Bool.and_eq_true]
+      exact ⟨by decide, normEol_noCR n r' (by simp at hl; omega)⟩
+    · rw [normEol_cons c r (by intro hc r' hr; exact h ⟨hc, r', hr⟩)]
+      simp only [List.all_cons, Bool.and_eq_true]
+      refine ⟨?_, normEol_noCR n r (by simp at hl; omega)⟩
+      split
+      · decide
+      · rename_i hne; simpa using hne
+
+theorem noCRKids_chunk (b : Bool) (s : Str) : noCRKids (chunk b (normEol s)) = true := by
+  simp only [chunk]
+  split
+  · simp [noCRKids]
+  · simp [noCRKids, noCR, normEol_noCR s.length s (Nat.le_refl _)]
+
+theorem noCRKids_items (b : Bool) : ∀ (items : List (Str × Str)), noCRKids (itemsKids b items) = true
+  | [] => by simp [itemsKids, noCRKids]
+  | (v, t) :: rest => by
+    simp [itemsKids, noCRKids, noCR, outputNode, noCRKids_append, noCRKids_chunk, noCRKids_items b rest]
+
+theorem normAttrsKids_chunk (b : Bool) (s : Str) : normAttrsKids (chunk b s) = chunk b s := by
+  cases s <;> simp [chunk, normAttrsKids, normAttrs]
+
+theorem normAttrsKids_append (L1 L2 : List Node) :
+    normAttrsKids (L1 ++ L2) = normAttrsKids L1 ++ normAttrsKids L2 := by
+  induction L1 with
+  | nil => simp [normAttrsKids]
+  | cons n r ih => simp [normAttrsKids, ih]
+
+theorem normAttrsKids_items (b : Bool) : ∀ (items : List (Str × Str)), ItemsOk items →
+    normAttrsKids (itemsKids b items) = itemsKids b items
+  | [], _ => by simp [itemsKids, normAttrsKids]
+  | (v, t) :: rest, hok => by
+    obtain ⟨hv, _, hrest⟩ := hok
+    simp [itemsKids, normAttrsKids, normAttrs, outputNode, normAttrList, normAttrVal_ok v hv.attrOk,
+      normAttrsKids_append, normAttrsKids_chunk, normAttrsKids_items b rest hrest]
+
+theorem withSpacesKids_chunk (b : Bool) (s : Str) : withSpacesKids (chunk b s) = chunk b s := by
+  cases s <;> simp [chunk, withSpacesKids, withSpaces]
+
+theorem withSpacesKids_append (L1 L2 : List Node) :
+    withSpacesKids (L1 ++ L2) = withSpacesKids L1 ++ withSpacesKids L2 := by
+  induction L1 with
+  | nil => simp [withSpacesKids]
+  | cons n r ih => simp [withSpacesKids, ih]
+
+theorem withSpacesKids_items (b : Bool) : ∀ (items : List (Str × Str)),
+    withSpacesKids (itemsKids b items) = itemsKids b items
+  | [] => by simp [itemsKids, withSpacesKids]
+  | (v, t) :: rest => by
+    simp [itemsKids, withSpacesKids, withSpaces, outputNode, withSpacesKids_append, withSpacesKids_chunk,
+      withSpacesKids_items b rest]
+
+theorem flatKids_items (b : Bool) : ∀ (items : List (Str × Str)), flatKids (itemsKids b items) = flatItems items
+  | [] => by simp [itemsKids, flatItems, flatKids]
+  | (v, t) :: rest => by
+    simp [itemsKids, flatItems, flatKids, outputNode, flatKids_append, flatKids_chunk, flatKids_items b rest]
+
+/-- **flattened form of `mixed_reader`**: written as one string (text as is, each `output` as `\x00 value \x00`) the
+    children an XML reader finds are the cell's own flattening `flatCell` — every literal chunk character for
+    character (line ends normalised), every reference's xpath in its place — surrounded by the boundary spaces of
+    `writexml` (`leadSp`/`trailSp`: at most one space each, present only for mixed content with more than one child) -/
+theorem mixed_flat (tag head : Str) (items : List (Str × Str)) (hok : ItemsOk items) :
+    ∃ ks, expectedLax (.elem tag [] (cellKids true head items)) = .elem tag [] ks ∧
+      flatKids ks =
+        (if (cellKids true head items).any isText then
+           leadSp (cellKids true head items) ++ flatCell head items ++ trailSp (cellKids true head items)
+         else flatCell head items) := by
+  have hK : normAttrsKids (cellKids true head items) = cellKids true head items := by
+    simp [cellKids, normAttrsKids_append, normAttrsKids_chunk, normAttrsKids_items true items hok]
+  have hW : withSpacesKids (cellKids true head items) = cellKids true head items := by
+    simp [cellKids, withSpacesKids_append, withSpacesKids_chunk, withSpacesKids_items]
+  have hF : flatKids (cellKids true head items) = flatCell head items := by
+    simp [cellKids, flatCell, flatKids_append, flatKids_chunk, flatKids_items]
+  have hna : normAttrs (.elem tag [] (cellKids true head items)) = .elem tag [] (cellKids true head items) := by
+    simp [normAttrs, normAttrList, hK]
+  have hcr : noCR (.elem tag [] (cellKids true head items)) = true := by
+    simp [noCR, cellKids, noCRKids_append, noCRKids_chunk, noCRKids_items]
+  rw [expectedLax_of_noCR _ hcr, hna, expected]
+  simp only [withSpaces, hW]
+  split
+  · rename_i hany
+    refine ⟨_, normNode_elem _ _ _, ?_⟩
+    simp [flatKids_mergeText, flatKids_normKids, flatKids_append, flatKids_textIf, hF]
+  · refine ⟨_, normNode_elem _ _ _, ?_⟩
+    simp [flatKids_mergeText, flatKids_normKids, hF]
+
+-- the boundary spaces are at most one space each
+example (K : List Node) : leadSp K = [] ∨ leadSp K = [' '] := by
+  unfold leadSp; split
+  · exact Or.inl rfl
+  · split
+    · exact Or.inl rfl
+    · split
+      · exact Or.inr rfl
+      · exact Or.inl rfl
+example (K : List Node) : trailSp K = [] ∨ trailSp K = [' '] := by
+  unfold trailSp; split
+  · exact Or.inl rfl
+  · split
+    · exact Or.inl rfl
+    · exact Or.inr rfl
+
 /-! ## 5. Tie to the current source: regenerated tables (re-checked on every run) -/
 
 /-- `utils.XML_TEXT_SUBS` of the working tree is exactly the table `escTextChar` implements … -/
@@ -396,6 +540,14 @@ theorem exCell_read :
         .text false " é 😀 ع\n&#x3c; }<![CDATA[ $".toList,
         .elem "output".toList [("value".toList, " /data/g/b2 ".toList)] [],
         .text false " ".toList ]) := by decide +kernel
+
+-- `mixed_flat` at the adversarial cell: what the consumer reads, as one string
+example : ∃ ks, expectedLax (.elem "label".toList [] (cellKids true exCell.head exItems)) = .elem "label".toList [] ks ∧
+    flatKids ks = ' ' :: (flatCell exCell.head exItems ++ [' ']) := by
+  obtain ⟨ks, h1, h2⟩ := mixed_flat "label".toList exCell.head exItems exCell_ok.items
+  refine ⟨ks, h1, ?_⟩
+  rw [h2]
+  decide +kernel
 
 -- text / attribute channels on adversarial strings
 example : parseDoc (renderDoc false (nodeText "hint".toList "]]> <a b='c'>&#38;&unknown; \r x".toList)) =
